@@ -127,6 +127,13 @@ fn payload(kind: char, f: usize, id: u64) -> Bytes {
 /// carry (`max`), chosen by the datagram's number. An empty or one-octet payload cannot name its
 /// flow and number: the harness identifies it by order (see `Short`).
 fn payload_sized(kind: char, f: usize, id: u64, max: usize) -> Bytes {
+    // a client datagram one octet longer than the socket carries: its send() fails with EMSGSIZE
+    // (longer than the mux wire format's decoder admits - the pipe must cope on its own)
+    if kind == 'q' && id % 16 == 11 {
+        let mut v = format!("{}{}:{}:", kind, f, id).into_bytes();
+        v.resize(max + 1, b'x');
+        return Bytes::from(v);
+    }
     match id % 8 {
         2 => Bytes::new(),
         5 => Bytes::from_static(b"z"),
@@ -326,6 +333,9 @@ enum Op {
     /// SOCKS5 upstream only: the server holds / releases its UDP ASSOCIATE reply ("slow" mode)
     Hold,
     Release,
+    /// a forged ICMP destination-unreachable / communication administratively prohibited (type 3
+    /// code 13: a hard error, EHOSTUNREACH, for a connected UDP socket) about a datagram of the flow
+    Fault(usize),
 }
 
 fn op_json(o: &Op) -> Value {
@@ -342,7 +352,57 @@ fn op_json(o: &Op) -> Value {
         Op::Accept => json!({"e": "Accept"}),
         Op::Hold => json!({"e": "Hold"}),
         Op::Release => json!({"e": "Release"}),
+        Op::Fault(f) => json!({"e": "Fault", "f": f}),
     }
+}
+
+fn ip_checksum(data: &[u8]) -> u16 {
+    let mut sum = 0u32;
+    for c in data.chunks(2) {
+        sum += u32::from(u16::from_be_bytes([c[0], *c.get(1).unwrap_or(&0)]));
+    }
+    while sum >> 16 != 0 {
+        sum = (sum & 0xffff) + (sum >> 16);
+    }
+    !(sum as u16)
+}
+
+static RAW_ICMP: std::sync::OnceLock<Option<socket2::Socket>> = std::sync::OnceLock::new();
+
+fn raw_icmp() -> Option<&'static socket2::Socket> {
+    RAW_ICMP
+        .get_or_init(|| socket2::Socket::new(socket2::Domain::IPV4, socket2::Type::from(libc::SOCK_RAW), Some(socket2::Protocol::ICMPV4)).ok())
+        .as_ref()
+}
+
+/// raw sockets are permitted (the harness runs as root); without them the Fault operations are skipped
+fn icmp_available() -> bool {
+    raw_icmp().is_some()
+}
+
+/// An ICMP destination-unreachable with the given code about a UDP datagram `from` -> `to` (both on
+/// the loopback interface), as a router or the firewall of the destination would send it
+fn send_icmp_unreachable(code: u8, from: SocketAddr, to: SocketAddr) -> io::Result<()> {
+    let (SocketAddr::V4(from), SocketAddr::V4(to)) = (from, to) else {
+        return Err(io::Error::new(io::ErrorKind::Other, "IPv4 only"));
+    };
+    let raw = raw_icmp().ok_or_else(|| io::Error::new(io::ErrorKind::Other, "no raw socket"))?;
+    // the offending datagram: IPv4 header + the UDP header
+    let mut ip = vec![0x45, 0, 0, 30, 0, 0, 0, 0, 64, 17, 0, 0];
+    ip.extend_from_slice(&from.ip().octets());
+    ip.extend_from_slice(&to.ip().octets());
+    let c = ip_checksum(&ip);
+    ip[10..12].copy_from_slice(&c.to_be_bytes());
+    let mut icmp = vec![3u8, code, 0, 0, 0, 0, 0, 0];
+    icmp.extend_from_slice(&ip);
+    icmp.extend_from_slice(&from.port().to_be_bytes());
+    icmp.extend_from_slice(&to.port().to_be_bytes());
+    icmp.extend_from_slice(&10u16.to_be_bytes());
+    icmp.extend_from_slice(&0u16.to_be_bytes());
+    let c = ip_checksum(&icmp);
+    icmp[2..4].copy_from_slice(&c.to_be_bytes());
+    raw.send_to(&icmp, &SocketAddr::from((*from.ip(), 0)).into())?;
+    Ok(())
 }
 
 fn static_name(a: &str) -> &'static str {
@@ -623,6 +683,28 @@ impl<'a> Run<'a> {
                 self.skipped += 1;
                 return;
             }
+            Op::Fault(f) => {
+                let (sn, dn) = FLOW_NAMES[*f - 1];
+                let live = self.live.contains(&(sn.to_string(), dn.to_string()));
+                let sock = if dn == "U" { None } else { self.net.server(dn).seen.get(f).copied() };
+                match (live, sock, dn != "U" && self.net.server(dn).up()) {
+                    (true, Some(flow_socket), true) if icmp_available() => {
+                        let peer = self.net.server(dn).addr;
+                        ev("Fault", format!("\"f\":{},\"code\":13", f));
+                        if let Err(e) = send_icmp_unreachable(13, flow_socket, peer) {
+                            self.problems.push(("c07:raw-socket".into(), format!("forging the ICMP error failed: {}", e)));
+                        }
+                        // the kernel hands the error to the flow's socket; nothing reads it before
+                        // the next send or the next datagram on that socket
+                        std::thread::sleep(Duration::from_micros(300));
+                        self.settle(None).await;
+                    }
+                    _ => {
+                        self.skipped += 1;
+                        return;
+                    }
+                }
+            }
         }
         if self.fut.is_some() {
             self.obs();
@@ -782,7 +864,7 @@ fn random_ops(rng: &mut StdRng) -> Vec<Op> {
     let fav: Vec<usize> = (0..2).map(|_| rng.gen_range(1..=NFLOWS)).collect();
     let flow = |rng: &mut StdRng| if rng.gen_range(0..3) > 0 { fav[rng.gen_range(0..fav.len())] } else { rng.gen_range(1..=NFLOWS) };
     while ops.len() < n {
-        match rng.gen_range(0..26) {
+        match rng.gen_range(0..28) {
             0..=5 => ops.push(Op::D(flow(rng))),
             6..=7 => {
                 let f = flow(rng);
@@ -799,6 +881,24 @@ fn random_ops(rng: &mut StdRng) -> Vec<Op> {
             17 => ops.push(Op::Down(servers[rng.gen_range(0..3)])),
             18 => ops.push(Op::Up(servers[rng.gen_range(0..3)])),
             22 => ops.push(if rng.gen() { Op::Stall } else { Op::Resume }),
+            24 => {
+                // a firewall answers the flow with "administratively prohibited": the error waits in
+                // the flow's socket and is met by the next send - or by the reader, if a reply comes first
+                let f = flow(rng);
+                ops.push(Op::D(f));
+                if rng.gen() {
+                    ops.push(Op::D(flow(rng)));
+                }
+                ops.push(Op::Fault(f));
+                if rng.gen() {
+                    ops.push(Op::D(f));
+                } else {
+                    ops.push(Op::R(f));
+                }
+                ops.push(Op::D(f));
+                ops.push(Op::R(f));
+            }
+            25 => ops.push(Op::Fault(flow(rng))),
             23 => {
                 // the client stalls while a peer answers: the replies are dropped, not counted
                 let f = flow(rng);
@@ -876,6 +976,7 @@ fn parse_ops(s: &Value) -> Vec<Op> {
                 "Refuse" => Op::Refuse,
                 "Accept" => Op::Accept,
                 "Hold" => Op::Hold,
+                "Fault" => Op::Fault(f),
                 "Release" => Op::Release,
                 "Stall" => Op::Stall,
                 "Resume" => Op::Resume,
@@ -898,6 +999,8 @@ fn main() {
     }
     let trace_path = arg("--trace").expect("--trace");
     let mut tf = std::io::BufWriter::new(std::fs::File::create(&trace_path).unwrap());
+    // opened before any run takes its baseline of file descriptors
+    rep.count("raw_icmp_socket", icmp_available() as u64);
     let socks = arg("--upstream").as_deref() == Some("socks5");
     let mut net = if socks { None } else { Some(Net::new()) };
     let mut snet = if socks { Some(s5::SNet::new()) } else { None };
@@ -995,6 +1098,9 @@ fn main() {
             ("metric_out", "\"ev\":\"Metric\",\"dir\":\"out\""),
             ("metric_in", "\"ev\":\"Metric\",\"dir\":\"in\""),
             ("peer_got", "\"ev\":\"PeerGot\""),
+            ("icmp_faults", "\"ev\":\"Fault\""),
+            ("host_unreachable_met_by_reader", "\"kind\":\"HostUnreachable\""),
+
             ("empty_to_client", "\"n\":0,\"sent\":true"),
             ("one_octet_to_client", "\"n\":1,\"sent\":true"),
             ("largest_to_client", "\"n\":65507,\"sent\":true"),
@@ -1009,6 +1115,7 @@ fn main() {
             rep.count(k, o.lines.iter().filter(|l| l.contains(pat)).count() as u64);
         }
         rep.count("peer_closed_sibling_left", o.lines.iter().filter(|l| l.contains("\"ev\":\"PeerClosed\"") && l.contains("\"found\":true") && !l.contains("\"left\":0")).count() as u64);
+        rep.count("oversize_client_datagrams", o.lines.iter().filter(|l| l.contains("\"ev\":\"ClientDgram\"") && (l.contains("\"n\":65508") || l.contains("\"n\":65498"))).count() as u64);
         rep.count("empty_to_peer", o.lines.iter().filter(|l| l.contains("\"ev\":\"PeerGot\"") && l.contains("\"n\":0")).count() as u64);
         rep.count("largest_to_peer", o.lines.iter().filter(|l| l.contains("\"ev\":\"PeerGot\"") && (l.contains("\"n\":65507") || l.contains("\"n\":65497"))).count() as u64);
         rep.count("empty_dns_answer", o.lines.windows(3).filter(|w| w[0].contains("\"ev\":\"ClientGot\"") && w[0].contains("\"d\":\"a\",\"f\":3") && w[0].contains("\"n\":0,") && w[2].contains("\"ev\":\"Incoming\"")).count() as u64);
